@@ -76,8 +76,8 @@ def entryStrs (kv : String × Val) : List String :=
   | .seq xs => xs.map (fun x => kv.1 ++ "=" ++ fmtV x)
   | v => [kv.1 ++ "=" ++ fmtV v]
 
-/-- `var seq []any` stays nil when nothing is appended -/
-def nilIfEmpty (l : List Val) : Option (List Val) := if l.isEmpty then none else some l
+/-- since "fix: convertIntoSequence turns an empty mapping into an empty sequence" the mapping branch never yields a nil slice -/
+def nilIfEmpty (l : List Val) : Option (List Val) := some l
 
 /-- `convertIntoSequence`: `none` is Go's nil slice -/
 def intoSeq : Val → Option (List Val)
